@@ -648,10 +648,46 @@ func (g *Gen) build(t *rapid.T, kind string) *spec {
 				}
 			}
 		}
+		// entries that exist both as a stake and on the waitlist (same owner, candidate, coin): the
+		// two are drawn on together, so values between and beyond the two amounts are boundaries
+		type both struct{ stake, wait *big.Int }
+		idx := map[string]*both{}
+		keyOf := func(x st) string { return x.owner.String() + x.key.String() + fmt.Sprint(x.coin) }
+		nStakes := 0
+		for _, c := range g.V.Cands {
+			nStakes += len(c.Stakes)
+		}
+		for i, x := range all {
+			b := idx[keyOf(x)]
+			if b == nil {
+				b = &both{}
+				idx[keyOf(x)] = b
+			}
+			if i < nStakes {
+				b.stake = x.val
+			} else {
+				b.wait = x.val
+			}
+		}
+		var dual []st
+		for i, x := range all {
+			if b := idx[keyOf(x)]; i < nStakes && b.stake != nil && b.wait != nil && g.userByAddr(x.owner) != nil {
+				dual = append(dual, x)
+			}
+		}
 		var pk types.Pubkey
 		coin := uint64(0)
 		val := Bip(1)
-		if len(all) > 0 && U(t, "ubAny", 10) != 0 {
+		var forced *big.Int
+		if len(dual) > 0 && U(t, "ubDual", 3) == 0 {
+			x := pick(t, "ubDualStake", dual)
+			b := idx[keyOf(x)]
+			pk, coin, val = x.key, x.coin, x.val
+			s.sender = g.userByAddr(x.owner)
+			sum := new(big.Int).Add(b.stake, b.wait)
+			forced = pick(t, "ubDualVal", []*big.Int{b.wait, new(big.Int).Add(b.wait, big.NewInt(1)), sum, new(big.Int).Add(sum, big.NewInt(1)),
+				new(big.Int).Add(b.wait, new(big.Int).Rsh(b.stake, 1)), new(big.Int).Mul(sum, big.NewInt(3)), b.stake})
+		} else if len(all) > 0 && U(t, "ubAny", 10) != 0 {
 			x := pick(t, "ubStake", all)
 			pk, coin, val = x.key, x.coin, x.val
 			if o := g.userByAddr(x.owner); o != nil && U(t, "ubOther", 10) != 0 {
@@ -663,7 +699,11 @@ func (g *Gen) build(t *rapid.T, kind string) *spec {
 		}
 		if kind == "unbond" {
 			s.typ = tx.TypeUnbond
-			s.data = tx.UnbondDataV3{PubKey: pk, Coin: types.CoinID(coin), Value: amount(t, "ubVal", val)}
+			v := amount(t, "ubVal", val)
+			if forced != nil {
+				v = forced
+			}
+			s.data = tx.UnbondDataV3{PubKey: pk, Coin: types.CoinID(coin), Value: v}
 		} else {
 			s.typ = tx.TypeMoveStake
 			to := g.candKey(t, "mvTo")
@@ -675,7 +715,11 @@ func (g *Gen) build(t *rapid.T, kind string) *spec {
 					}
 				}
 			}
-			s.data = tx.MoveStakeData{FromPubKey: pk, ToPubKey: to, Coin: types.CoinID(coin), Value: amount(t, "mvVal", val)}
+			v := amount(t, "mvVal", val)
+			if forced != nil {
+				v = forced
+			}
+			s.data = tx.MoveStakeData{FromPubKey: pk, ToPubKey: to, Coin: types.CoinID(coin), Value: v}
 		}
 	case "lockStake":
 		s.typ = tx.TypeLockStake
